@@ -44,23 +44,21 @@ fn check_if_inputs_are_power_of_two(
 
     //if the first expression is a number literal that is a power of 2
     if let Expression::NumberLiteral(_, val_string, _) = *box_expression {
-        let value = val_string
-            .parse::<u32>()
-            .expect("Could not parse NumberLiteral value from string to u32");
-
-        if (value != 0) && ((value & (value - 1)) == 0) {
-            is_even = true;
+        //A literal that does not fit into 128 bits is not treated as a power of two
+        if let Ok(value) = val_string.parse::<u128>() {
+            if value.is_power_of_two() {
+                is_even = true;
+            }
         }
     }
 
     //if the first expression is a number literal that is a power of 2
     if let Expression::NumberLiteral(_, val_string, _) = *box_expression_1 {
-        let value = val_string
-            .parse::<u32>()
-            .expect("Could not parse NumberLiteral value from string to u32");
-
-        if (value != 0) && ((value & (value - 1)) == 0) {
-            is_even = true;
+        //A literal that does not fit into 128 bits is not treated as a power of two
+        if let Ok(value) = val_string.parse::<u128>() {
+            if value.is_power_of_two() {
+                is_even = true;
+            }
         }
     }
 
